@@ -78,7 +78,14 @@ def g_rgba2(lon, lat):
     return out
 
 
-SAMPLERS = {"rgba1": g_rgba1, "rgba2": g_rgba2, "cap": g_cap, "scalar": g_scalar, "scalar2": g_scalar2, "rgb": g_rgb, "cheap": g_cheap, "cheap-rgb": g_cheap_rgb}
+def g_night(lon, lat):
+    # a planet's night side: pure black and fully opaque over a whole hemisphere (whole tiles of it), colour elsewhere
+    c = g_rgb(lon, lat)
+    c[np.cos(lat) * np.cos(lon - 0.4) < 0] = 0
+    return np.concatenate([c, np.full(c.shape[:2] + (1,), 255, np.uint8)], axis=-1)
+
+
+SAMPLERS = {"night": g_night, "rgba1": g_rgba1, "rgba2": g_rgba2, "cap": g_cap, "scalar": g_scalar, "scalar2": g_scalar2, "rgb": g_rgb, "cheap": g_cheap, "cheap-rgb": g_cheap_rgb}
 
 
 def ref_coords(n, x, y, planetary):
@@ -160,9 +167,11 @@ def serial_case(d, depth, planetary, fmt, mode, part):
     expected = {}
     try:
         with quiet():
-            if mode in ("clobber", "clobber-rgb"):
+            if mode in ("clobber", "clobber-rgb", "clobber-night"):
                 if mode == "clobber-rgb":
                     sampler = "rgb"  # colour data into a numeric tile format (3-D arrays; FITS rows bottom-up)
+                if mode == "clobber-night":
+                    sampler = "night"
                 toast.sample_layer(pio, SAMPLERS[sampler], depth, coordsys=cs, parallel=1)
                 for p in allpos:
                     expected[p] = expected_tile(*p, planetary, sampler)
@@ -433,10 +442,12 @@ def run(tier, seed):
     for depth in depths:
         for planetary in (False, True):
             for fmt in ("png", "npy", "fits"):
-                for mode in ("clobber", "update-all", "update-partial", "clobber-over-existing", "clobber-cap", "cli-allsky", "update-partial-rgba", "builder", "builder-filtered", "clobber-rgb"):
+                for mode in ("clobber", "update-all", "update-partial", "clobber-over-existing", "clobber-cap", "cli-allsky", "update-partial-rgba", "builder", "builder-filtered", "clobber-rgb", "clobber-night"):
                     if mode.startswith("builder") and (depth == 3 or (depth == 0 and mode == "builder-filtered")):
                         continue
                     if mode == "clobber-rgb" and (fmt == "png" or depth not in (1, 2)):
+                        continue
+                    if mode == "clobber-night" and (fmt != "png" or depth not in (2, 3)):
                         continue
                     if mode == "clobber-cap" and (fmt == "png" or depth < 2):
                         continue
